@@ -315,7 +315,7 @@ def r8_publication_fanout(ctx):
     W1, W2 = worker("H1", "w0"), worker("H1", "w1")
     m = Obj("cascade.executor.msg.DatasetPublished", {"origin": W1, "ds": ds("D", "T"), "transmit_idx": None})
     sent = []
-    ip = Interp(repo, call_models={"cascade.executor.comms.Listener.recv_messages": lambda run, a, k, n, f: [m] if not sent and not sent.append(1) else []},
+    ip = Interp(repo, call_models={"cascade.executor.comms.Listener.recv_messages": lambda run, a, k, n, f: [m] if not getattr(run, 'model_sent', False) and not setattr(run, 'model_sent', True) else []},
                 max_while=1, inline={"cascade.executor.runner.entrypoint.worker_address"})
     env = {"self.workers": {W1: Obj("P", {"exitcode": None}), W2: Obj("P", {"exitcode": None})}, "self.terminating": False,
            "self.datasets": set()}
